@@ -52,6 +52,9 @@ pub enum Act {
     /// `get_unique_mut(k)`: write v if unique
     GetUniqueMutWrite(String, Val),
     GetOrInsertWith(String, Val),
+    /// `get_or_insert_with(k, f)` / `get_mut_or_insert_with(k, f)` where `f` panics (it runs only
+    /// when the key is absent); the panic is caught and the object must be unchanged
+    GetOrInsertWithPanics(String, bool),
     GetMutOrInsertWithWrite(String, Val),
     /// continue on `clone()`
     Clone,
@@ -109,6 +112,7 @@ impl fmt::Display for Act {
             Act::IterMutWrite(i, v) => write!(f, "iter_mut_write({i},{v})"),
             Act::GetUniqueMutWrite(k, v) => write!(f, "get_unique_mut_write({k},{v})"),
             Act::GetOrInsertWith(k, v) => write!(f, "get_or_insert_with({k},{v})"),
+            Act::GetOrInsertWithPanics(k, m) => write!(f, "get_{}or_insert_with_panicking({k})", if *m { "mut_" } else { "" }),
             Act::GetMutOrInsertWithWrite(k, v) => write!(f, "get_mut_or_insert_with_write({k},{v})"),
             Act::Clone => write!(f, "clone()"),
             Act::CloneFrom(n) => write!(f, "clone_from({n})"),
@@ -161,6 +165,8 @@ impl Act {
             "iter_mut_write" => Act::IterMutWrite(a[0].parse().ok()?, a[1].parse().ok()?),
             "get_unique_mut_write" => Act::GetUniqueMutWrite(a[0].into(), a[1].parse().ok()?),
             "get_or_insert_with" => Act::GetOrInsertWith(a[0].into(), a[1].parse().ok()?),
+            "get_or_insert_with_panicking" => Act::GetOrInsertWithPanics(a[0].into(), false),
+            "get_mut_or_insert_with_panicking" => Act::GetOrInsertWithPanics(a[0].into(), true),
             "get_mut_or_insert_with_write" => Act::GetMutOrInsertWithWrite(a[0].into(), a[1].parse().ok()?),
             "clone" => Act::Clone,
             "clone_from" => Act::CloneFrom(a[0].parse().ok()?),
@@ -296,14 +302,14 @@ pub static SAW: std::sync::atomic::AtomicU8 = std::sync::atomic::AtomicU8::new(0
 /// audit is a deterministic function of exactly that, so it is run once per unique state.
 pub static AUDITED: std::sync::OnceLock<Vec<std::sync::Mutex<std::collections::HashSet<u64>>>> = std::sync::OnceLock::new();
 
-pub const KINDS: [&str; 26] = [
+pub const KINDS: [&str; 28] = [
     "push", "push_entry", "push_front", "push_entry_front", "insert", "insert_front", "remove", "remove_unique", "remove_at", "sort", "get_mut_write",
     "iter_mut_write", "get_unique_mut_write", "get_or_insert_with", "get_mut_or_insert_with_write", "clone", "extend_pairs", "extend_entries",
-    "from_iter_entries", "from_iter_pairs", "from_vec", "into_iter_from", "ref_mut_into_iter_write", "clone_from", "extend_entries_then_panic", "extend_pairs_then_panic",
+    "from_iter_entries", "from_iter_pairs", "from_vec", "into_iter_from", "ref_mut_into_iter_write", "clone_from", "extend_entries_then_panic", "extend_pairs_then_panic", "get_or_insert_with_panicking", "get_mut_or_insert_with_panicking",
 ];
 
 /// Transitions executed per operation kind (evidence: the outcome histogram of the search).
-pub static KIND_COUNT: [std::sync::atomic::AtomicU64; 26] = [const { std::sync::atomic::AtomicU64::new(0) }; 26];
+pub static KIND_COUNT: [std::sync::atomic::AtomicU64; 28] = [const { std::sync::atomic::AtomicU64::new(0) }; 28];
 
 impl Act {
     pub fn kind_index(&self) -> usize {
@@ -593,6 +599,19 @@ pub fn apply(real: &mut Object, model: &mut RObj<Val>, a: &Act, saw: &mut u8) ->
             let got = unval(real.get_or_insert_with(k.as_str(), || val(*v)));
             if got != want {
                 return Err(format!("get_or_insert_with returned {got}, model {want}"));
+            }
+        }
+        Act::GetOrInsertWithPanics(k, mutable) => {
+            let present = model.contains(k);
+            let caught = std::panic::catch_unwind(std::panic::AssertUnwindSafe(|| {
+                if *mutable {
+                    let _ = real.get_mut_or_insert_with(k.as_str(), || panic!("the value constructor failed"));
+                } else {
+                    let _ = real.get_or_insert_with(k.as_str(), || panic!("the value constructor failed"));
+                }
+            }));
+            if caught.is_err() == present {
+                return Err(format!("get_or_insert_with with a panicking constructor: key present = {present}, constructor ran = {}", caught.is_err()));
             }
         }
         Act::GetMutOrInsertWithWrite(k, v) => {
@@ -928,6 +947,10 @@ impl Model for ObjModel {
                     }
                     out.push(Act::GetOrInsertWith(k.clone(), v));
                     out.push(Act::GetMutOrInsertWithWrite(k.clone(), v));
+                    if v == self.cfg.vals[0] {
+                        out.push(Act::GetOrInsertWithPanics(k.clone(), false));
+                        out.push(Act::GetOrInsertWithPanics(k.clone(), true));
+                    }
                 }
                 // insert_front grows the object unless the key is already first
                 if room || s.model.entries.first().map(|e| &e.0) == Some(k) || present {
